@@ -95,7 +95,7 @@ CHECKS.update({
 
 ENV_NOTE = ("every enumeration is repeated under the process-environment dimensions the harness owns: log level passes (Trace, Debug[, Info, Warn, Error], Off), "
             "TZ with DST, wall clock (clock_gettime defined by the harness binary; 1986 in the Trace pass, relative offsets where timestamps matter), odd-address byte buffers (Debug pass), "
-            "environment-variable-shaped source literals set (Debug pass), one-CPU threads, calls from inside current-thread / LocalSet / multi-thread tokio runtimes, cross-API disturbances and operation histories on fresh threads, and in the applicable build configurations (dbg, bare, aws, x1, x2) whose failures are merged into the verdict")
+            "environment-variable-shaped source literals set (Debug pass), one-CPU threads, calls from inside current-thread / LocalSet / multi-thread tokio runtimes, cross-API disturbances and operation histories on fresh threads, and in the applicable build configurations (dbg, bare, aws, dec, x1, x2) whose failures are merged into the verdict")
 
 PENDING = {
 }
